@@ -1,4 +1,4 @@
-// unit modular: src/modular.rs — reduce_mod, add_mod, pow_mod (over mul_mod's contract), Uint::mul_redc  (C10, C11)
+// unit modular: src/modular.rs — reduce_mod, add_mod, mul_mod, pow_mod, Uint::mul_redc, Uint::square_redc  (C10, C11)
 #![allow(non_snake_case)]
 use vstd::prelude::*;
 use vstd::arithmetic::power::*;
@@ -24,7 +24,21 @@ pub struct Uint<const BITS: usize, const LIMBS: usize> { pub
 
 //@ import mul_redc mul_redc
 //@ import mul_redc square_redc
-pub mod algorithms { pub use super::mul_redc; pub use super::square_redc; }
+pub open spec fn total(old_s: Seq<u64>, a0: Seq<u64>, b0: Seq<u64>) -> int {
+    lvr(old_s, 0, old_s.len() as int) + lvr(a0, 0, a0.len() as int) * lvr(b0, 0, b0.len() as int)
+}
+//@ import addmul addmul
+//@ import divd div
+//@ import core nlimbs
+pub mod algorithms { pub use super::mul_redc; pub use super::square_redc; pub use super::addmul; pub use super::div; }
+
+// ASSUMED (label A, normalisation N19): `unsafe { core::slice::from_raw_parts_mut(product.as_mut_ptr().cast::<u64>(), len) }` on a local
+// `[[u64; 2]; N]` - the memory-layout fact that an array of N limb pairs is 2N consecutive limbs (element 2i + j is store[i][j])
+#[verifier::external_body]
+pub fn limb_pairs_as_slice<const N: usize>(store: &mut [[u64; 2]; N], len: usize) -> (r: &mut [u64])
+    requires len <= 2 * N
+    ensures r@.len() == len, forall|k: int| 0 <= k < len ==> r@[k] == old(store)[k / 2][k % 2]
+{ unimplemented!() }
 
 pub proof fn lemma_lv_first(s: Seq<u64>, n: nat)
     requires 1 <= n <= s.len()
@@ -76,20 +90,65 @@ pub proof fn lemma_pow_mod_base(x: int, y: int, e: nat, m: int)
 impl<const BITS: usize, const LIMBS: usize> Uint<BITS, LIMBS> {
 //@ import core ZERO
 //@ import core from_limbs
+//@ import core as_limbs
 //@ import basics ONE
 //@ import basics is_zero
 //@ import add overflowing_add
 
-    // ASSUMED (label A): mul_mod reinterprets [[u64; 2]; LIMBS] as a limb slice through a raw pointer (outside Verus);
-    // the two kernels it calls (addmul into a zeroed 2N buffer, algorithms::div) are under proved / assumed contracts.
-    // Kani decides it at 4 and 8 bits only (c10).
-    #[verifier::external_body]
-    pub fn mul_mod(self, rhs: Self, modulus: Self) -> (r: Self)
-        requires self.wf(), rhs.wf(), modulus.wf()
+    // 2^(2*BITS) <= B^(nlimbs(2*BITS)): the double-width product buffer holds the full product
+    pub proof fn lemma_product_fits(a: int, b: int, pl: int)
+        requires 0 <= a < pow2(BITS as nat), 0 <= b < pow2(BITS as nat), pl == (2 * BITS + 63) / 64
+        ensures 0 <= a * b < bp(pl)
+    {
+        let m = pow2(BITS as nat) as int;
+        lemma_pow2_adds(BITS as nat, BITS as nat);
+        assert(0 <= a * b <= (m - 1) * (m - 1)) by(nonlinear_arith) requires 0 <= a <= m - 1, 0 <= b <= m - 1;
+        assert((m - 1) * (m - 1) < m * m) by(nonlinear_arith) requires m >= 1;
+        lemma_bp_is_pow2(pl as nat);
+        if 2 * BITS < 64 * pl { lemma_pow2_strictly_increases((2 * BITS) as nat, (64 * pl) as nat); }
+    }
+
+//@ extract src/modular.rs fn mul_mod rewrite="crate :: nlimbs" => "nlimbs" #1
+    pub fn mul_mod(self, rhs: Self, modulus: Self) -> /*+*/(r:/*-*/ Self/*+*/)
+        requires self.wf(), rhs.wf(), modulus.wf(), BITS <= (usize::MAX - 63) / 2
         ensures r.wf(),
             modulus.val() == 0 ==> r.val() == 0,
-            modulus.val() != 0 ==> r.val() as int == ((self.val() * rhs.val()) as int) % (modulus.val() as int),
-    { unimplemented!() }
+            modulus.val() != 0 ==> r.val() as int == ((self.val() * rhs.val()) as int) % (modulus.val() as int),/*-*/
+    { let mut modulus = modulus ;
+        if modulus.is_zero() {
+            return Self::ZERO();
+        }
+        /*+*/let ghost mv = modulus.val() as int; let ghost av = self.val() as int; let ghost bv = rhs.val() as int;
+        let ghost m0 = modulus;/*-*/
+        let mut product = [[0u64; 2]; LIMBS];
+        let product_len = nlimbs(2 * BITS);
+        vassert (2 * LIMBS >= product_len );
+        let product = limb_pairs_as_slice ( & mut product , product_len );
+        /*+*/let ghost pl = product_len as int;
+        let ghost p0 = product@;
+        proof {
+            lemma_lvr_zero(p0, 0, pl);
+            lemma_lvr_is_lv(self.limbs@, LIMBS as nat); lemma_lvr_is_lv(rhs.limbs@, LIMBS as nat); lemma_lvr_is_lv(modulus.limbs@, LIMBS as nat);
+            self.lemma_wf_lt(); rhs.lemma_wf_lt();
+            Self::lemma_product_fits(av, bv, pl);
+            assert(total(p0, self.limbs@, rhs.limbs@) == av * bv);
+            lemma_small_mod((av * bv) as nat, bp(pl) as nat);
+        }/*-*/
+        let overflow = algorithms::addmul(product, self.as_limbs(), rhs.as_limbs());
+        vassert (!overflow );
+        algorithms::div(product, &mut modulus.limbs);
+        /*+*/proof {
+            // product_before == q * m + r with 0 <= r < m, and r is what is left in `modulus`
+            let q = lvr(product@, 0, pl); let rr = lvr(modulus.limbs@, 0, LIMBS as int);
+            lemma_lvr_is_lv(modulus.limbs@, LIMBS as nat);
+            lemma_lvr_bound(product@, 0, pl);
+            lemma_fundamental_div_mod_converse(av * bv, mv, q, rr);
+            m0.lemma_wf_lt();
+            if BITS > 0 { modulus.lemma_wf_iff_lt(); } else { lemma2_to64(); }
+        }/*-*/
+        modulus
+    }
+//@ end
 
 //@ extract src/modular.rs fn reduce_mod
     pub fn reduce_mod(self, modulus: Self) -> /*+*/(r:/*-*/ Self/*+*/)
@@ -184,7 +243,7 @@ impl<const BITS: usize, const LIMBS: usize> Uint<BITS, LIMBS> {
 
 //@ extract src/modular.rs fn pow_mod
     pub fn pow_mod(self, exp: Self, modulus: Self) -> /*+*/(r:/*-*/ Self/*+*/)
-        requires self.wf(), exp.wf(), modulus.wf(), BITS <= usize::MAX - 63
+        requires self.wf(), exp.wf(), modulus.wf(), BITS <= (usize::MAX - 63) / 2
         ensures r.wf(),
             modulus.val() <= 1 || BITS == 0 ==> r.val() == 0,
             modulus.val() >= 2 && BITS > 0 ==> r.val() as int == pow(self.val() as int, exp.val()) % (modulus.val() as int),/*-*/
@@ -201,7 +260,7 @@ impl<const BITS: usize, const LIMBS: usize> Uint<BITS, LIMBS> {
         }/*-*/
         while exp > Self::ZERO()
             /*+*/invariant
-                BITS > 0, BITS <= usize::MAX - 63, m == modulus.val(), m >= 2, modulus.wf(),
+                BITS > 0, BITS <= (usize::MAX - 63) / 2, m == modulus.val(), m >= 2, modulus.wf(),
                 exp.wf(), result.wf(), this.wf(),
                 (result.val() as int * pow(this.val() as int, exp.val())) % m == pow(a, e0) % m,
                 0 <= result.val() < m,
